@@ -571,6 +571,15 @@ def _main(prop, modname, args, seed, tier, t0, pid, log):
             return do_replay(prop, args.replay, log)
         workers = args.workers or (min(12, os.cpu_count() or 1) if tier == "thorough" else min(4, os.cpu_count() or 1))
         proof = proof_leg(pid, tier, log)
+        if not proof["problems"]:
+            # structural (translator) tie for the few anchored functions that are pure arithmetic
+            from harness import structural
+
+            st = structural.run(pid, log)
+            proof["obligations"] += st["obligations"]
+            proof["discharged"] += st["discharged"]
+            proof["problems"] += st["problems"]
+            proof["structural"] = st["notes"]
         for pr in proof["problems"]:
             log("PROOF PROBLEM: " + pr)
         run = Runner(prop, modname, tier, seed, workers)
@@ -678,6 +687,7 @@ def write_evidence(prop, tier, seed, proof, run, wall, code, searched):
                            + (f" && lake env leanchecker {proof['module']}" if tier == "thorough" else ""),
             "trusted_base": GENERIC_TRUSTED + list(prop.trusted),
             "theorems": proof["theorems"], "proof_problems": proof["problems"],
+            "structural_tie": proof.get("structural", []),
             "evaluations": run.evals, "distinct_nontrivial": len(run.nontrivial),
             "rule": prop.rule or "generated cases; non-trivial = hits at least one named boundary/feature class; distinct by hash of the canonical case",
             "samples": run.samples or [{"note": "no generated case ran"}],
